@@ -33,7 +33,6 @@ Proof.
   replace (N.to_nat n - length a)%nat with O by lia. reflexivity.
 Qed.
 
-Definition U32 : N := 4294967296.
 
 (* ---------- the wire grammar ---------- *)
 Lemma frames_fuel_enough k1 : forall k2 bs,
@@ -79,7 +78,6 @@ Proof.
   now rewrite ntake_app_exact, ndrop_app_exact.
 Qed.
 
-Definition raw (f : N * list N) : list N := frame (fst f) (snd f).
 Definition fok (f : N * list N) : Prop := nlen (snd f) < U32.
 
 Lemma frames_raws fs tail : Forall fok fs -> frames (concat (map raw fs) ++ tail) = fs ++ frames tail.
@@ -128,6 +126,7 @@ Local Notation dec_poll := (dec_poll deser decompress).
 Local Notation polls := (polls deser decompress).
 Local Notation drain := (drain deser decompress).
 Local Notation after_none := (@after_none enc msg).
+Local Notation good := (good deser decompress).
 
 Ltac recs := cbn [d_buf d_state d_trailers d_dir d_encoding d_max d_log
                   with_state with_buf with_trailers with_log limit_of] in *.
@@ -464,8 +463,6 @@ Proof.
 Qed.
 
 (* ---------- counting polls ---------- *)
-Definition oks_of (t : list pres) : list msg :=
-  flat_map (fun r => match r with Item (IOk m) => [m] | _ => [] end) t.
 Definition budget (d : dec) : nat := match d_state d with Error None => 0 | _ => 1 end.
 
 Lemma budget_le (d : dec) : (budget d <= 1)%nat.
@@ -600,19 +597,19 @@ Lemma same_cfg_refl (d : dec) : same_cfg d d.
 Proof. repeat split. Qed.
 
 Lemma body_matches (d : dec) comp len :
-  d_state d = ReadBody comp len -> wf d ->
+  d_state d = ReadBody comp len ->
   match payload_step comp len (d_buf d) with
   | SNeed => decode_chunk d = KNone d
   | SMsg m r => decode_chunk d = KItem m (with_state (with_buf d r) ReadHeader)
-  | SFail st => exists d', decode_chunk d = KErr st d'
+  | SFail st => exists d', decode_chunk d = KErr st d' /\ d_log d' = d_log d /\ st_code st = Code_Internal
   end.
 Proof.
-  intros S W. unfold payload_step, Decoder.decode_chunk, Decoder.inner_decode_chunk, Decoder.read_body.
+  intros S. unfold payload_step, Decoder.decode_chunk, Decoder.inner_decode_chunk, Decoder.read_body.
   rewrite S. destruct (nlen (d_buf d) <? len) eqn:L; [reflexivity|].
   destruct comp as [e|].
-  - destruct (decompress e _) as [out|]; [|eexists; reflexivity].
-    destruct (deser out); [reflexivity | eexists; reflexivity].
-  - destruct (deser _); [reflexivity | eexists; reflexivity].
+  - destruct (decompress e _) as [out|]; [|eexists; repeat split].
+    destruct (deser out); [reflexivity | eexists; repeat split].
+  - destruct (deser _); [reflexivity | eexists; repeat split].
 Qed.
 
 Lemma flag_decision_flag encoding fl comp :
@@ -695,7 +692,7 @@ Proof.
     assert (W3 : wf d3).
     { unfold wf, d3, after_header. cbn. repeat split; [exact Hlen | unfold limit_of in *; cbn; lia | exact Hc]. }
     assert (S3 : d_state d3 = ReadBody comp len) by reflexivity.
-    pose proof (body_matches d3 comp len S3 W3) as BM.
+    pose proof (body_matches d3 comp len S3) as BM.
     change (d_buf d3) with r in BM.
     destruct (payload_step comp len r) as [|m r'|st]; cbn [step_matches]; rewrite HS.
     + exists d3. split; [exact BM|]. split.
@@ -704,18 +701,18 @@ Proof.
       split; [exact W3|]. split; [unfold non_error; now rewrite S3|].
       split; [repeat split|]. rewrite S3, S. reflexivity.
     + eexists. split; [exact BM|]. repeat split.
-    + exact BM.
+    + destruct BM as (d' & BM & _). eauto.
   - (* ReadBody *)
     pose proof W as W'. unfold wf in W'. rewrite S in W'. destruct W' as (Wl & Wm & We).
     unfold spec_step, be32. cbn [app].
     rewrite (flag_decision_of (d_encoding d) comp We). cbv zeta.
     rewrite un_be32_be32 by exact Wl.
     replace (limit_of d <? len) with false by lia.
-    pose proof (body_matches d comp len S W) as BM.
+    pose proof (body_matches d comp len S) as BM.
     destruct (payload_step comp len (d_buf d)) as [|m r'|st]; cbn [step_matches].
     + exists d. split; [exact BM|]. unfold rest. rewrite S. repeat split; auto. now rewrite app_nil_r.
     + eexists. split; [exact BM|]. repeat split.
-    + exact BM.
+    + destruct BM as (d' & BM & _). eauto.
   - exfalso; eapply non_error_not; eassumption.
 Qed.
 
@@ -844,7 +841,6 @@ Proof.
 Qed.
 
 (* ============================ C07: what is yielded are frames of the input =============== *)
-Definition ev_ok (e : bev) : Prop := match e with BData b => bytes_ok b = true | _ => True end.
 
 (* [D] = the data bytes received so far, [fs] the frames consumed so far, [oks] the messages
    yielded so far *)
@@ -965,4 +961,500 @@ Proof.
     destruct ev; cbn in H1; try discriminate. destruct (_ && _); [discriminate|].
     injection H1 as _ <-. reflexivity.
 Qed.
+
+Lemma oks_of_cons (r : pres) t : oks_of (r :: t) = match r with Item (IOk m) => [m] | _ => [] end ++ oks_of t.
+Proof. reflexivity. Qed.
+Lemma oks_of_app (a b : list pres) : oks_of (a ++ b) = oks_of a ++ oks_of b.
+Proof. unfold oks_of. apply flat_map_app. Qed.
+
+Lemma polls_inv e0 n : forall evs g d D fs oks trace d' evs' g',
+  Inv e0 d D fs oks -> Forall ev_ok evs -> polls n evs g d = (trace, (d', evs', g')) ->
+  exists used fs', evs = used ++ evs' /\
+    Inv e0 d' (D ++ data_of used) (fs ++ fs') (oks ++ oks_of trace).
+Proof.
+  induction n as [|n IH]; intros evs g d D fs oks trace d' evs' g' I EO; cbn [Decoder.polls].
+  - intros H; injection H as <- <- <- <-. exists [], []. split; [reflexivity|].
+    cbn [data_of map concat oks_of flat_map]. now rewrite !app_nil_r.
+  - destruct (dec_poll evs g d) as [[[r d1] evs1] g1] eqn:P.
+    destruct (polls n evs1 g1 d1) as [tr fin] eqn:Q. intros H; injection H as <- ->.
+    apply dec_poll_Poll in P. destruct (Poll_inv e0 _ _ _ _ _ _ _ P _ _ _ I EO) as (used1 & -> & R).
+    apply Forall_app in EO as [_ EO1].
+    assert (X : exists f1, Inv e0 d1 (D ++ data_of used1) (fs ++ f1)
+                            (oks ++ match r with Item (IOk m) => [m] | _ => [] end)).
+    { destruct r as [|[m|st]| |]; try (exists []; now rewrite !app_nil_r).
+      destruct R as [f R]. now exists [f]. }
+    destruct X as [f1 I1].
+    destruct (IH _ _ _ _ _ _ _ _ _ _ I1 EO1 Q) as (used2 & fs2 & -> & I2).
+    exists (used1 ++ used2), (f1 ++ fs2). split; [now rewrite app_assoc|].
+    rewrite data_of_app, oks_of_cons, !app_assoc. exact I2.
+Qed.
+
+Lemma Inv_new dir encoding max : Inv encoding (dec_new dir encoding max) [] [] [].
+Proof.
+  split; [reflexivity|]. split; [constructor|]. split; [constructor|]. exists []. split; [reflexivity|].
+  intros _. repeat split.
+Qed.
+
+Lemma Forall2_len {A B} (R : A -> B -> Prop) l1 l2 : Forall2 R l1 l2 -> length l1 = length l2.
+Proof. induction 1; cbn; congruence. Qed.
+
+Lemma firstn_app_exact {A} (a b : list A) : firstn (length a) (a ++ b) = a.
+Proof. rewrite firstn_app, Nat.sub_diag, firstn_all. cbn. apply app_nil_r. Qed.
+
+Lemma Inv_frames e0 d D fs oks : Inv e0 d D fs oks ->
+  Forall2 (fun f m => frame_msg deser decompress e0 f = Some m) (firstn (length fs) (frames D)) oks.
+Proof.
+  intros (_ & F & F2 & tail & -> & _). rewrite frames_raws by exact F. now rewrite firstn_app_exact.
+Qed.
+
+(* C07 dec_yields_are_frames: whatever was polled out of a fresh stream, the Ok items are, in
+   order, what a prefix of the frames of an independent parse of the data bytes received so
+   far stands for (flag 0: deser payload; flag 1: deser of the decompressed payload). *)
+Theorem dec_yields_are_frames : forall n evs dir encoding max trace d' evs' g',
+  Forall ev_ok evs ->
+  polls n evs (mkB 0) (dec_new dir encoding max) = (trace, (d', evs', g')) ->
+  exists used k, evs = used ++ evs' /\
+    Forall2 (fun f m => frame_msg deser decompress encoding f = Some m)
+            (firstn k (frames (data_of used))) (oks_of trace).
+Proof.
+  intros n evs dir encoding max trace d' evs' g' EO P.
+  destruct (polls_inv encoding n _ _ _ _ _ _ _ _ _ _ (Inv_new dir encoding max) EO P) as (used & fs' & E & I).
+  exists used, (length fs'). split; [exact E|]. cbn [app] in I. exact (Inv_frames _ _ _ _ _ I).
+Qed.
+
+Lemma drain_polls_Some fuel : forall evs g d trace fin,
+  drain fuel evs g d = (trace, Some fin) -> polls (length trace) evs g d = (trace, fin).
+Proof.
+  induction fuel as [|n IH]; intros evs g d trace fin; cbn [Decoder.drain]; [discriminate|].
+  destruct (dec_poll evs g d) as [[[r d1] evs1] g1] eqn:P.
+  destruct r.
+  3: { intros H; injection H as <- <-. cbn [length Decoder.polls]. now rewrite P. }
+  all: destruct (drain n evs1 g1 d1) as [tr f] eqn:Q; intros H; injection H as <- ->;
+       cbn [length Decoder.polls]; rewrite P, (IH _ _ _ _ _ Q); reflexivity.
+Qed.
+
+(* the same for a draining caller *)
+Theorem dec_yields_are_frames_drain : forall fuel evs dir encoding max trace d' evs' g',
+  Forall ev_ok evs ->
+  drain fuel evs (mkB 0) (dec_new dir encoding max) = (trace, Some (d', evs', g')) ->
+  exists used k, evs = used ++ evs' /\
+    Forall2 (fun f m => frame_msg deser decompress encoding f = Some m)
+            (firstn k (frames (data_of used))) (oks_of trace).
+Proof.
+  intros fuel evs dir encoding max trace d' evs' g' EO H.
+  apply drain_polls_Some in H. eapply dec_yields_are_frames; eassumption.
+Qed.
+
+(* number of Ok items of a run <= number of frames in all the data of the script *)
+Lemma oks_le_frames n evs dir encoding max trace fin :
+  Forall ev_ok evs -> polls n evs (mkB 0) (dec_new dir encoding max) = (trace, fin) ->
+  (length (oks_of trace) <= length (frames (data_of evs)))%nat.
+Proof.
+  intros EO P. destruct fin as [[d' evs'] g'].
+  destruct (dec_yields_are_frames _ _ _ _ _ _ _ _ _ EO P) as (used & k & -> & F).
+  apply Forall2_len in F. rewrite <- F, firstn_length, data_of_app.
+  pose proof (frames_mono (data_of used) (data_of evs')). lia.
+Qed.
+
+(* C07 dec_drain_terminates: a caller that drains a fresh stream is done after at most
+   #events + #frames + 2 polls, and the body is polled at most once with its script exhausted *)
+Theorem dec_drain_terminates : forall evs dir encoding max fuel,
+  Forall ev_ok evs ->
+  (length evs + length (frames (data_of evs)) + 2 <= fuel)%nat ->
+  exists trace d' evs' g',
+    drain fuel evs (mkB 0) (dec_new dir encoding max) = (trace, Some (d', evs', g')) /\
+    (length trace <= length evs + length (frames (data_of evs)) + 2)%nat /\
+    b_end_polls g' <= 1.
+Proof.
+  intros evs dir encoding max fuel EO Hf.
+  destruct (drain fuel evs (mkB 0) (dec_new dir encoding max)) as [trace [[[d' evs'] g']|]] eqn:DR.
+  - exists trace, d', evs', g'. split; [reflexivity|]. split.
+    + destruct (drain_Some _ _ _ _ _ _ _ _ DR) as (pre & d1 & evs1 & g1 & -> & ND & PL & _ & _).
+      destruct (polls_budget _ _ _ _ _ _ _ _ PL ND) as (used & E & B).
+      pose proof (oks_le_frames _ _ _ _ _ _ _ EO PL) as O.
+      assert (length used <= length evs)%nat by (rewrite E, app_length; lia).
+      pose proof (budget_le (dec_new dir encoding max)).
+      rewrite app_length. cbn [length]. lia.
+    + apply drain_end_polls in DR. cbn in DR. lia.
+  - exfalso. destruct (drain_None _ _ _ _ _ DR) as (ND & L & [[[d1 evs1] g1] PL]).
+    destruct (polls_budget _ _ _ _ _ _ _ _ PL ND) as (used & E & B).
+    pose proof (oks_le_frames _ _ _ _ _ _ _ EO PL) as O.
+    assert (length used <= length evs)%nat by (rewrite E, app_length; lia).
+    pose proof (budget_le (dec_new dir encoding max)). lia.
+Qed.
+
+(* ---------- computing one poll forwards ---------- *)
+Lemma poll_next_kitem evs g (d d1 : dec) m : non_error d -> decode_chunk d = KItem m d1 ->
+  poll_next evs g d = (Item (IOk m), d1, evs, g).
+Proof.
+  unfold non_error. intros NE DC. destruct evs; cbn [Decoder.poll_next]; rewrite DC;
+    destruct (d_state d); try reflexivity; destruct NE.
+Qed.
+Lemma poll_next_kerr evs g (d d1 : dec) st : non_error d -> decode_chunk d = KErr st d1 ->
+  poll_next evs g d = (Item (IErr st), with_state d1 (Error None), evs, g).
+Proof.
+  unfold non_error. intros NE DC. destruct evs; cbn [Decoder.poll_next]; rewrite DC;
+    destruct (d_state d); try reflexivity; destruct NE.
+Qed.
+Lemma poll_next_knone_cons ev evs g (d d1 : dec) : non_error d -> decode_chunk d = KNone d1 ->
+  poll_next (ev :: evs) g d =
+  match poll_frame (answer_of ev) d1 with
+  | FPending => (Pending, d1, evs, g)
+  | FPanic => (Panic, d1, evs, g)
+  | FSome d2 => poll_next evs g d2
+  | FNone d2 => let '(r, d3) := after_none d2 in (r, d3, evs, g)
+  | FErr st d2 => (Item (IErr st), with_state d2 (Error None), evs, g)
+  end.
+Proof.
+  unfold non_error. intros NE DC. cbn [Decoder.poll_next]. rewrite DC.
+  destruct (d_state d); try reflexivity; destruct NE.
+Qed.
+Lemma poll_next_knone_nil g (d d1 : dec) : non_error d -> decode_chunk d = KNone d1 ->
+  poll_next [] g d =
+  match poll_frame AEnd d1 with
+  | FNone d2 => let '(r, d3) := after_none d2 in (r, d3, [], end_poll g)
+  | FErr st d2 => (Item (IErr st), with_state d2 (Error None), [], end_poll g)
+  | _ => (Panic, d1, [], end_poll g)
+  end.
+Proof.
+  unfold non_error. intros NE DC. cbn [Decoder.poll_next]. rewrite DC.
+  destruct (d_state d); try reflexivity; destruct NE.
+Qed.
+
+(* ============================ C06, decoder half: the size limit ========================== *)
+
+Lemma legal_flag_decision (d : dec) fl : legal_flag d fl -> exists comp, flag_decision (d_encoding d) fl = inl comp.
+Proof.
+  unfold legal_flag, flag_decision. intros [->|[-> H]]; [exists None; reflexivity|].
+  destruct (d_encoding d) as [e|]; [exists (Some e); reflexivity | congruence].
+Qed.
+
+
+Lemma limit_default (d : dec) : d_max d = None -> limit_of d = 4194304.
+Proof. unfold limit_of. now intros ->. Qed.
+
+(* C06 dec_limit_iff: with the five prefix bytes buffered and a legal flag, the declared
+   length is refused with OUT_OF_RANGE iff it exceeds the limit; a refused length leaves no
+   Reserve event (nothing was allocated for it), an accepted one logs exactly Reserve len -
+   whatever follows the prefix in the buffer ([more] is arbitrary, possibly empty). *)
+Theorem dec_limit_iff : forall (d : dec) fl a b c x more,
+  d_state d = ReadHeader -> d_buf d = fl :: a :: b :: c :: x :: more -> legal_flag d fl ->
+  let len := un_be32 a b c x in
+  chunk_is_oor (decode_chunk d) = (limit_of d <? len) /\
+  (limit_of d < len -> exists d', decode_chunk d = KErr st_too_large d' /\ d_log d' = d_log d) /\
+  (len <= limit_of d -> decode_chunk d <> KPanic /\
+     chunk_log (decode_chunk d) [] = d_log d ++ [Reserve len]) /\
+  (len <= limit_of d -> fl = 0 -> len <= nlen more -> forall m, deser (ntake len more) = Some m ->
+     exists d', decode_chunk d = KItem m d' /\ d_buf d' = ndrop len more /\ d_state d' = ReadHeader).
+Proof.
+  intros d fl a b c x more S B LF len.
+  destruct (legal_flag_decision d fl LF) as [comp F].
+  destruct (limit_of d <? len) eqn:L.
+  - rewrite (header_too_large d fl a b c x more comp S B F L). cbn.
+    split; [reflexivity|]. split; [eauto|]. split; intros; lia.
+  - pose proof (header_step d fl a b c x more comp S B F L) as HS. fold len in HS.
+    set (d3 := after_header d comp len more) in *.
+    assert (S3 : d_state d3 = ReadBody comp len) by reflexivity.
+    pose proof (body_matches d3 comp len S3) as BM. change (d_buf d3) with more in BM.
+    assert (L3 : d_log d3 = d_log d ++ [Reserve len]) by reflexivity.
+    split; [|split; [intros; lia|split]].
+    + rewrite HS. destruct (payload_step comp len more) as [|m r|st].
+      * now rewrite BM.
+      * now rewrite BM.
+      * destruct BM as (d' & -> & _ & C). cbn. rewrite C. reflexivity.
+    + intros _. rewrite HS. destruct (payload_step comp len more) as [|m r|st].
+      * rewrite BM. split; [discriminate|exact L3].
+      * rewrite BM. split; [discriminate|exact L3].
+      * destruct BM as (d' & -> & LG & _). split; [discriminate|]. cbn. now rewrite LG.
+    + intros _ -> Hm m Dm. unfold flag_decision in F. cbn in F. injection F as <-.
+      unfold payload_step in BM. replace (nlen more <? len) with false in BM by lia.
+      rewrite Dm in BM. rewrite HS, BM. eexists. repeat split.
+Qed.
+
+(* ... and the error is produced by the very poll that receives the chunk completing the
+   prefix, whatever else that chunk or the rest of the script holds *)
+Theorem dec_limit_poll : forall (d : dec) g chunk evs' fl a b c x more,
+  d_state d = ReadHeader -> nlen (d_buf d) < 5 ->
+  d_buf d ++ chunk = fl :: a :: b :: c :: x :: more -> legal_flag d fl ->
+  limit_of d < un_be32 a b c x ->
+  exists d', poll_next (BData chunk :: evs') g d = (Item (IErr st_too_large), d', evs', g) /\
+             d_log d' = d_log d /\ d_state d' = Error None.
+Proof.
+  intros d g chunk evs' fl a b c x more S Hs B LF L.
+  assert (NE : non_error d) by (unfold non_error; now rewrite S).
+  assert (DC : decode_chunk d = KNone d).
+  { unfold Decoder.decode_chunk, Decoder.inner_decode_chunk. rewrite S.
+    replace (nlen (d_buf d) <? HEADER_SIZE) with true by (unfold HEADER_SIZE; lia). reflexivity. }
+  rewrite (poll_next_knone_cons _ _ _ _ _ NE DC). cbn [answer_of poll_frame is_data into_data].
+  set (d2 := with_buf d (d_buf d ++ chunk)).
+  assert (S2 : d_state d2 = ReadHeader) by exact S.
+  assert (B2 : d_buf d2 = fl :: a :: b :: c :: x :: more) by exact B.
+  assert (LF2 : legal_flag d2 fl) by exact LF.
+  destruct (legal_flag_decision d2 fl LF2) as [comp F].
+  assert (L2 : (limit_of d2 <? un_be32 a b c x) = true) by (change (limit_of d2) with (limit_of d); lia).
+  assert (NE2 : non_error d2) by (unfold non_error; now rewrite S2).
+  rewrite (poll_next_kerr _ _ _ _ _ NE2 (header_too_large d2 fl a b c x more comp S2 B2 F L2)).
+  eexists. split; [reflexivity|]. split; reflexivity.
+Qed.
+
+(* ============================ C01, decoder half: any chunking ========================== *)
+
+Lemma good_flag lim e0 fl p m : good lim e0 (fl, p) m ->
+  exists comp, flag_decision e0 fl = inl comp /\
+    payload_step comp (nlen p) p = SMsg m [] /\
+    forall r, payload_step comp (nlen p) (p ++ r) = SMsg m r.
+Proof.
+  intros (FM & _ & _). unfold frame_msg, flag_decision in *.
+  assert (P : forall (r : list N), (nlen (p ++ r) <? nlen p) = false) by (intros; rewrite nlen_app; lia).
+  destruct (fl =? 0).
+  - exists None. split; [reflexivity|]. unfold payload_step.
+    split; [|intros r; rewrite P, ntake_app_exact, ndrop_app_exact, FM; reflexivity].
+    specialize (P []). rewrite app_nil_r in P. rewrite P.
+    pose proof (ntake_app_exact p []) as T. pose proof (ndrop_app_exact p []) as Dp.
+    rewrite app_nil_r in T, Dp. now rewrite T, Dp, FM.
+  - destruct (fl =? 1); [|discriminate]. destruct e0 as [e|]; [|discriminate].
+    exists (Some e). split; [reflexivity|]. unfold payload_step.
+    destruct (decompress e p) as [q|] eqn:Z; [|discriminate].
+    split; [|intros r; rewrite P, ntake_app_exact, ndrop_app_exact, Z, FM; reflexivity].
+    specialize (P []). rewrite app_nil_r in P. rewrite P.
+    pose proof (ntake_app_exact p []) as T. pose proof (ndrop_app_exact p []) as Dp.
+    rewrite app_nil_r in T, Dp. now rewrite T, Dp, Z, FM.
+Qed.
+
+(* a prefix [bs] of a valid stream: the stateless step waits, or delivers the first message *)
+Lemma spec_step_valid lim e0 bs future fl p m tailw :
+  bs ++ future = raw (fl, p) ++ tailw -> good lim e0 (fl, p) m ->
+  hdr_ok bs /\
+  (nlen bs < 5 + nlen p -> spec_step e0 lim bs = SNeed) /\
+  (5 + nlen p <= nlen bs -> exists r, bs = raw (fl, p) ++ r /\ tailw = r ++ future /\
+                                       spec_step e0 lim bs = SMsg m r).
+Proof.
+  intros E G. destruct (good_flag _ _ _ _ _ G) as (comp & F & _ & PS). destruct G as (_ & Hu & Hl). cbn [snd] in Hu, Hl.
+  unfold raw, frame, be32 in E. cbn [fst snd app] in E.
+  destruct bs as [|x0 [|x1 [|x2 [|x3 [|x4 r0]]]]];
+    try (split; [exact I|]; split; [intros _; reflexivity|]; unfold nlen; cbn [length]; intros; lia).
+  cbn [app] in E. injection E as E0 E1 E2 E3 E4 E. subst x0 x1 x2 x3 x4.
+  split.
+  { cbn [hdr_ok]. repeat split; apply N.mod_lt; lia. }
+  unfold spec_step. rewrite F. cbv zeta. rewrite un_be32_be32 by exact Hu.
+  replace (lim <? nlen p) with false by lia.
+  assert (NL : nlen (fl :: (nlen p / 16777216) mod 256 :: (nlen p / 65536) mod 256 ::
+                      (nlen p / 256) mod 256 :: nlen p mod 256 :: r0) = 5 + nlen r0)
+    by (unfold nlen; cbn [length]; lia).
+  rewrite NL. split.
+  - intros H. unfold payload_step. replace (nlen r0 <? nlen p) with true by lia. reflexivity.
+  - intros H. destruct (app_eq_app_le r0 future p tailw E) as (r & -> & ->); [unfold nlen in H; lia|].
+    exists r. split; [|split; [reflexivity|apply PS]].
+    unfold raw, frame, be32. cbn [fst snd app]. reflexivity.
+Qed.
+
+
+Lemma after_none_ok (d : dec) : resp_ok (d_dir d) (d_trailers d) -> after_none d = (Done, d).
+Proof.
+  unfold resp_ok, Decoder.after_none, response. destruct (d_dir d); try reflexivity.
+  destruct (infer_grpc_status _ _) as [u|[e|]]; [reflexivity|intros []|reflexivity].
+Qed.
+
+
+
+Section Valid.
+Variable lim : N.
+Variable e0 : option enc.
+Variable dir0 : direction.
+Variable tr0 : option hm.
+Variable term : list bev.
+Hypothesis TERM : term_ok dir0 tr0 term.
+
+Definition J (d : dec) (evs : list bev) (fs : list (N * list N)) (ms : list msg) : Prop :=
+  non_error d /\ wf d /\ d_encoding d = e0 /\ limit_of d = lim /\ d_dir d = dir0 /\
+  d_trailers d = tr0 /\ rest d ++ data_of evs = concat (map raw fs) /\ Forall2 (good lim e0) fs ms.
+
+Lemma rest_nil (d : dec) : non_error d -> rest d = [] -> d_buf d = [].
+Proof.
+  unfold non_error, rest. destruct (d_state d); [auto|discriminate|intros []].
+Qed.
+
+Lemma J_step (d : dec) evs fs ms : J d evs fs ms ->
+  (exists f m fs' ms' d', fs = f :: fs' /\ ms = m :: ms' /\ decode_chunk d = KItem m d' /\
+                           J d' evs fs' ms') \/
+  (exists d1, decode_chunk d = KNone d1 /\ J d1 evs fs ms /\
+              (data_of evs = [] -> fs = [] /\ ms = [] /\ d_buf d1 = [])).
+Proof.
+  intros (NE & W & E & L & Dr & T & EQ & G).
+  destruct G as [|[fl p] m fs' ms' G0 G].
+  - (* no message left *)
+    cbn [map concat] in EQ. apply app_eq_nil in EQ as [R Dn].
+    pose proof (decode_chunk_spec d W NE) as SP. rewrite R in SP. specialize (SP I).
+    cbn [spec_step step_matches] in SP. destruct SP as (d1 & DC & R1 & W1 & NE1 & SC & _).
+    right. exists d1. split; [exact DC|]. destruct SC as (SC1 & SC2 & SC3 & SC4).
+    assert (L1 : limit_of d1 = lim) by (unfold limit_of in *; now rewrite SC4).
+    split.
+    + split; [exact NE1|]. split; [exact W1|]. split; [congruence|]. split; [exact L1|].
+      split; [congruence|]. split; [congruence|].
+      split; [rewrite R1, R, Dn; reflexivity | constructor].
+    + intros _. repeat split. apply rest_nil; [exact NE1|congruence].
+  - cbn [map concat] in EQ.
+    destruct (spec_step_valid lim e0 _ _ fl p m _ EQ G0) as (HO & Hneed & Hmsg).
+    pose proof (decode_chunk_spec d W NE HO) as SP. rewrite E, L in SP.
+    destruct (N.lt_ge_cases (nlen (rest d)) (5 + nlen p)) as [Hlt|Hge].
+    + rewrite (Hneed Hlt) in SP. cbn [step_matches] in SP.
+      destruct SP as (d1 & DC & R1 & W1 & NE1 & SC & _).
+      right. exists d1. split; [exact DC|]. destruct SC as (SC1 & SC2 & SC3 & SC4).
+      assert (L1 : limit_of d1 = lim) by (unfold limit_of in *; now rewrite SC4).
+      split.
+      * split; [exact NE1|]. split; [exact W1|]. split; [congruence|]. split; [exact L1|].
+        split; [congruence|]. split; [congruence|].
+        split; [rewrite R1; exact EQ | constructor; assumption].
+      * intros Dn. exfalso. rewrite Dn, app_nil_r in EQ. rewrite EQ in Hlt.
+        unfold raw, frame in Hlt. cbn [fst snd] in Hlt.
+        rewrite nlen_app, nlen_cons, nlen_app in Hlt. unfold nlen in Hlt at 1. rewrite be32_length in Hlt. lia.
+    + destruct (Hmsg Hge) as (r & Rr & Tw & SS). rewrite SS in SP. cbn [step_matches] in SP.
+      destruct SP as (d' & DC & S1 & B1 & SC).
+      destruct SC as (SC1 & SC2 & SC3 & SC4).
+      left. exists (fl, p), m, fs', ms', d'. split; [reflexivity|]. split; [reflexivity|]. split; [exact DC|].
+      split; [unfold non_error; now rewrite S1|]. split; [unfold wf; now rewrite S1|].
+      split; [congruence|]. split; [unfold limit_of in *; now rewrite SC4|].
+      split; [congruence|]. split; [congruence|].
+      split; [unfold rest; rewrite S1, B1; now rewrite Tw | exact G].
+Qed.
+
+Lemma J_data (d : dec) b evs fs ms : J d (BData b :: evs) fs ms ->
+  J (with_buf d (d_buf d ++ b)) evs fs ms.
+Proof.
+  intros (NE & W & E & L & Dr & T & EQ & G). repeat split; auto.
+  - rewrite rest_push by exact NE. rewrite <- app_assoc. exact EQ.
+Qed.
+
+Lemma J_pending (d : dec) evs fs ms : J d (BPending :: evs) fs ms -> J d evs fs ms.
+Proof. intros (NE & W & E & L & Dr & T & EQ & G). repeat split; auto. Qed.
+
+Inductive poll_outcome (g : bstat) (d : dec) (evs : list bev) (fs : list (N * list N)) (ms : list msg) : Prop :=
+| PO_pending d' evs1 :
+    poll_next (evs ++ term) g d = (Pending, d', evs1 ++ term, g) -> J d' evs1 fs ms ->
+    only_dp evs1 -> (length evs1 < length evs)%nat -> poll_outcome g d evs fs ms
+| PO_item f m fs' ms' d' evs1 :
+    fs = f :: fs' -> ms = m :: ms' ->
+    poll_next (evs ++ term) g d = (Item (IOk m), d', evs1 ++ term, g) -> J d' evs1 fs' ms' ->
+    only_dp evs1 -> (length evs1 <= length evs)%nat -> poll_outcome g d evs fs ms
+| PO_done d' g' :
+    fs = [] -> ms = [] -> poll_next (evs ++ term) g d = (Done, d', [], g') ->
+    poll_outcome g d evs fs ms.
+
+Lemma poll_valid evs : forall g d fs ms, J d evs fs ms -> only_dp evs -> poll_outcome g d evs fs ms.
+Proof.
+  induction evs as [|ev evs IH]; intros g d fs ms Jd DP.
+  - (* no data left in the script *)
+    destruct (J_step _ _ _ _ Jd) as [(f & m & fs' & ms' & d' & -> & -> & DC & J')|(d1 & DC & J1 & Hn)].
+    + eapply PO_item with (evs1 := []); eauto. apply poll_next_kitem; [apply Jd|exact DC].
+    + destruct (Hn eq_refl) as (-> & -> & B1).
+      destruct J1 as (NE1 & _ & _ & _ & Dr1 & T1 & _).
+      destruct TERM as [[Ht RO]|(t & Ht & RO)].
+      * eapply PO_done; auto. rewrite Ht. cbn [app]. rewrite (poll_next_knone_nil _ _ _ (proj1 Jd) DC). cbn [poll_frame]. rewrite B1.
+        rewrite after_none_ok by (now rewrite Dr1, T1). reflexivity.
+      * eapply PO_done; auto. rewrite Ht. cbn [app]. rewrite (poll_next_knone_cons _ _ _ _ _ (proj1 Jd) DC).
+        cbn [answer_of poll_frame is_data is_trailers into_trailers].
+        rewrite after_none_ok; [reflexivity|]. cbn. now rewrite Dr1, T1.
+  - inversion DP as [|? ? Hev DP']; subst.
+    destruct (J_step _ _ _ _ Jd) as [(f & m & fs' & ms' & d' & -> & -> & DC & J')|(d1 & DC & J1 & Hn)].
+    + eapply PO_item with (evs1 := ev :: evs); eauto. apply poll_next_kitem; [apply Jd|exact DC].
+    + destruct ev as [|b|t|st]; try destruct Hev.
+      * eapply PO_pending with (evs1 := evs); [| apply J_pending; exact J1 | exact DP' | cbn; lia].
+        cbn [app]. now rewrite (poll_next_knone_cons _ _ _ _ _ (proj1 Jd) DC).
+      * pose proof (J_data _ _ _ _ _ J1) as J2.
+        assert (EQ : poll_next ((BData b :: evs) ++ term) g d =
+                     poll_next (evs ++ term) g (with_buf d1 (d_buf d1 ++ b))).
+        { cbn [app]. now rewrite (poll_next_knone_cons _ _ _ _ _ (proj1 Jd) DC). }
+        destruct (IH g _ _ _ J2 DP') as [d' evs1 P J' D' Ln|f m fs' ms' d' evs1 -> -> P J' D' Ln|d' g' -> -> P].
+        -- eapply PO_pending; [rewrite EQ; exact P | exact J' | exact D' | cbn; lia].
+        -- eapply PO_item; [reflexivity | reflexivity | rewrite EQ; exact P | exact J' | exact D' | cbn; lia].
+        -- eapply PO_done; [reflexivity | reflexivity | rewrite EQ; exact P].
+Qed.
+
+
+Lemma drain_valid fuel : forall evs g d fs ms,
+  J d evs fs ms -> only_dp evs -> (length evs + length ms + 1 <= fuel)%nat ->
+  exists trace fin, drain fuel (evs ++ term) g d = (trace, Some fin) /\
+    strip_pending trace = map (fun m => Item (IOk m)) ms ++ [Done].
+Proof.
+  induction fuel as [|n IH]; intros evs g d fs ms Jd DP Hf; [lia|].
+  cbn [Decoder.drain]. unfold Decoder.dec_poll.
+  destruct (poll_valid evs g d fs ms Jd DP) as [d' evs1 P J' D' Ln|f m fs' ms' d' evs1 -> -> P J' D' Ln|d' g' -> -> P];
+    rewrite P.
+  - destruct (IH evs1 g d' fs ms J' D') as (tr & fin & -> & ST); [lia|].
+    exists (Pending :: tr), fin. split; [reflexivity|]. exact ST.
+  - destruct (IH evs1 g d' fs' ms' J' D') as (tr & fin & -> & ST); [cbn [length] in Hf; lia|].
+    exists (Item (IOk m) :: tr), fin. split; [reflexivity|].
+    cbn [strip_pending filter is_pending negb map app]. f_equal. exact ST.
+  - exists [Done], (d', [], g'). split; reflexivity.
+Qed.
+End Valid.
+
+Lemma data_of_chunks chunks : data_of (map BData chunks) = concat chunks.
+Proof. unfold data_of. rewrite map_map. now rewrite map_id. Qed.
+
+(* C01, decoder half (frames form): a script that delivers - cut anywhere, with Pending
+   anywhere - the concatenation of frames each of which stands for a message and passes the
+   limit, and then ends (plain end or trailers, with a non-error status), drains to exactly
+   those messages followed by Ready(None): no error, no loss, no duplication. *)
+Theorem dec_any_chunking_frames : forall dir encoding max fs ms evs term fuel,
+  Forall2 (good (match max with Some l => l | None => DEFAULT_MAX_RECV_MESSAGE_SIZE end) encoding) fs ms ->
+  only_dp evs -> data_of evs = concat (map raw fs) -> term_ok dir None term ->
+  (length evs + length ms + 1 <= fuel)%nat ->
+  exists trace fin,
+    drain fuel (evs ++ term) (mkB 0) (dec_new dir encoding max) = (trace, Some fin) /\
+    strip_pending trace = map (fun m => Item (IOk m)) ms ++ [Done].
+Proof.
+  intros dir encoding max fs ms evs term fuel G DP DE TO Hf.
+  eapply drain_valid with (fs := fs); eauto.
+  repeat split; auto.
+Qed.
+
+(* ---------- with the round-trip laws of the message codec and the compressor ---------- *)
+Section RoundTrip.
+Variable ser : msg -> list N.
+Variable compress : enc -> list N -> list N.
+Hypothesis deser_ser : forall m, deser (ser m) = Some m.
+Hypothesis decompress_compress : forall e b, decompress e (compress e b) = Some b.
+
+Local Notation wire_frame := (wire_frame ser compress).
+
+Lemma wire_frame_msg encoding c m :
+  frame_msg deser decompress encoding (wire_frame encoding c m) = Some m.
+Proof.
+  unfold Decoder.wire_frame, frame_msg. destruct c; [destruct encoding as [e|]|]; cbn.
+  - change (1 =? 0) with false. change (1 =? 1) with true. cbn. now rewrite decompress_compress.
+  - change (0 =? 0) with true. cbn. apply deser_ser.
+  - destruct encoding; change (0 =? 0) with true; cbn; apply deser_ser.
+Qed.
+
+(* C01, decoder half: messages framed as identity (flag 0, payload ser m) or - under a
+   negotiated encoding - compressed (flag 1, payload compress e (ser m)), individually per
+   message, delivered under ANY chunking of the concatenated frames (cuts inside the 5-byte
+   prefix, inside payloads, empty chunks) with Pending anywhere, then a plain end or
+   non-error trailers: the drain yields exactly the messages, in order, then Ready(None). *)
+Theorem dec_any_chunking : forall dir encoding max (ms : list (bool * msg)) evs term fuel,
+  let lim := match max with Some l => l | None => DEFAULT_MAX_RECV_MESSAGE_SIZE end in
+  Forall (fun cm => nlen (snd (wire_frame encoding (fst cm) (snd cm))) < U32 /\
+                    nlen (snd (wire_frame encoding (fst cm) (snd cm))) <= lim) ms ->
+  only_dp evs ->
+  data_of evs = concat (map (fun cm => raw (wire_frame encoding (fst cm) (snd cm))) ms) ->
+  term_ok dir None term ->
+  (length evs + length ms + 1 <= fuel)%nat ->
+  exists trace fin,
+    drain fuel (evs ++ term) (mkB 0) (dec_new dir encoding max) = (trace, Some fin) /\
+    strip_pending trace = map (fun cm => Item (IOk (snd cm))) ms ++ [Done].
+Proof.
+  intros dir encoding max ms evs term fuel lim SZ DP DE TO Hf.
+  destruct (dec_any_chunking_frames dir encoding max
+              (map (fun cm => wire_frame encoding (fst cm) (snd cm)) ms) (map snd ms) evs term fuel)
+    as (trace & fin & DR & ST).
+  - fold lim. clear DE Hf. induction SZ as [|[c m] ms [H1 H2] _ IH]; cbn [map]; constructor; [|exact IH].
+    cbn [fst snd] in *. split; [apply wire_frame_msg|]. split; assumption.
+  - exact DP.
+  - now rewrite map_map.
+  - exact TO.
+  - now rewrite map_length.
+  - exists trace, fin. split; [exact DR|]. now rewrite ST, map_map.
+Qed.
+End RoundTrip.
 End DecoderProofs.
